@@ -25,7 +25,7 @@ RULE = ("state = scene descriptor with certified truth (gap >= delta or common-p
 ASSUMPTIONS = ["ground truth by construction from the reference model (mc/refmodel/shapes.py)",
                "delta = 1e-3*L, L = max(1, feature sizes, centre distances)"]
 CHUNK = 100
-STATE_TIMEOUT = 60.0
+STATE_TIMEOUT = 240.0   # a lattice-polytope shard is 10-35 s of work (more on a loaded machine); scene states take milliseconds
 
 PRIM = ("sphere", "capsule", "box", "ellipsoid", "cylinder")
 PLS = [0, 5, 14, 15, 7, 8, 9, 11, 12]   # placements with a chance of certified truth (gaps 0.02, 0.1, 300 are exercised by C01; thorough adds them)
